@@ -12,6 +12,11 @@ from ..core import Rule
 from ..model import AnalysisError, dotted, unparse, short
 from ..cfg import cfg_of
 from .. import straight as S
+from .. import shape
+from ..facts import facts_of
+from ..contract import entry
+from ..pathsum import summarize
+from ..model import inline_locals
 from .c08 import guard_contract, raising_ifs
 from ..contract import describe_alt
 
@@ -61,6 +66,128 @@ def check_prp_stateless(repo, rule):
     rule.require(bool(keyed), rnd, "round MAC keyed with this call's key", "BitwiseFFX.round no longer keys its MAC with the key passed to this call")
 
 
+def _halves(sm, fi, vparam):
+    """Roles (A, B) of the two half variables: initialised from the two components of split(v), returned as A + B."""
+    SPLIT = ("call", ("fn", "self.split"), (("var", vparam),), ())
+    A, B = S.mv("A"), S.mv("B")
+    eqs = [(("proj", SPLIT, 0), lambda asg: sm.init.get(asg["A"])),
+           (("proj", SPLIT, 1), lambda asg: sm.init.get(asg["B"]))]
+    cands = [v for v in sm.init if v in sm.carried]
+    f = S.match_all(eqs, ["A", "B"], cands)
+    if f is None:
+        return None
+    asg, _ = f
+    if sm.ret != ("cat", (("var", asg["A"]), ("var", asg["B"]))):
+        return None
+    return asg["A"], asg["B"]
+
+
+def _canonical_step(sm, roles, ivar):
+    """Step of the loop with the half variables renamed to a, b, the round index to i, and other carried temporaries substituted."""
+    ren = {roles[0]: ("var", "a"), roles[1]: ("var", "b")}
+    if ivar:
+        ren[ivar] = ("var", "i")
+    a2 = S.canon(S.subst(sm.step.get(roles[0], ("var", roles[0])), ren))
+    b2 = S.canon(S.subst(sm.step.get(roles[1], ("var", roles[1])), ren))
+    return a2, b2
+
+
+def _round_call(t):
+    return t[0] == "call" and t[1] == ("fn", "self.round")
+
+
+def _round_args(F, rnd_params):
+    """{param: term} of a self.round(...) call term."""
+    out = {}
+    for i, x in enumerate(F[2]):
+        if i < len(rnd_params):
+            out[rnd_params[i]] = x
+    for k, v in F[3]:
+        out[k] = v
+    return out
+
+
+def _check_ffx(repo, r1, r2, r3, r4, enc, dec, se, sd):
+    rnd = repo.func(FPE, "BitwiseFFX.round")
+    rp = rnd.params[1:]  # key, i, s, output_len
+    key_e, v_e = enc.params[1], enc.params[2]
+    key_d, v_d = dec.params[1], dec.params[2]
+    re_, rd_ = _halves(se, enc, v_e), _halves(sd, dec, v_d)
+    if not r1.require(re_ is not None, enc, "halves from split, rejoined in order", "%s no longer starts from a, b = self.split(v) and returns a + b" % enc.qual):
+        return
+    if not r2.require(rd_ is not None, dec, "halves from split, rejoined in order", "%s no longer starts from a, b = self.split(v) and returns a + b" % dec.qual):
+        return
+    ive = se.target if se.kind == "for" else None
+    ivd = sd.target if sd.kind == "for" else None
+    a2, b2 = _canonical_step(se, re_, ive)
+    desc = {"T": {"a'": S.show(a2), "b'": S.show(b2)}}
+    A, B = ("var", "a"), ("var", "b")
+    ok_a = a2 == B
+    okb, F = False, None
+    if b2[0] == "xor" and len(b2[1]) == 2 and A in b2[1]:
+        F = [x for x in b2[1] if x != A][0]
+        okb = _round_call(F)
+    r1.require(ok_a and okb, enc, "round transformer shape",
+               "BitwiseFFX.encrypt: one round maps (a, b) to (%s, %s); a Feistel round must map it to (b, a ^ round(key, i, b, len(a)))" % (S.show(a2), S.show(b2)), se.loop)
+    if okb:
+        args = _round_args(F, rp)
+        uses_a_value = any(S.mentions(x, "a") and not (x[0] == "call" and x[1] == ("fn", "len")) for x in args.values())
+        r1.require(not uses_a_value, enc, "round function independent of the xor-ed half",
+                   "BitwiseFFX.encrypt: the round function reads the value of the half it is xor-ed into (%s): the round is no longer invertible" % S.show(F), se.loop)
+        r1.require(args.get(rp[0]) == ("var", key_e) and args.get(rp[1]) == ("var", "i") and args.get(rp[2]) == B, enc, "round function inputs",
+                   "BitwiseFFX.encrypt: round is called as %s, expected round(key, i, b, len(a))" % S.show(F), se.loop)
+        w = args.get(rp[3])
+        r4.require(w == ("call", ("fn", "len"), (A,), ()), enc, "requested width is the xor-ed half's length",
+                   "BitwiseFFX.encrypt asks the round function for %s bits, but xors the result into a (len(a) bits)" % (S.show(w) if w else None), se.loop)
+        r1.instance(desc)
+    ua, ub = _canonical_step(sd, rd_, ivd)
+    r2.instance({"U": {"a'": S.show(ua), "b'": S.show(ub)}})
+    if okb and ok_a:
+        def norm_len(t):
+            if isinstance(t, tuple):
+                if t and t[0] == "call" and t[1] == ("fn", "len") and t[2] and t[2][0][0] == "xor":
+                    inner = [x for x in t[2][0][1] if not _round_call(x)]
+                    if len(inner) == 1:
+                        return ("call", ("fn", "len"), (norm_len(inner[0]),), ())
+                return tuple(norm_len(x) if isinstance(x, tuple) else x for x in t)
+            return t
+        key_ren = {key_d: ("var", key_e)}
+        comp_a = norm_len(S.subst(S.subst(ua, key_ren), {"a": a2, "b": b2}))
+        comp_b = norm_len(S.subst(S.subst(ub, key_ren), {"a": a2, "b": b2}))
+        comp_a, comp_b = S.subst(comp_a, {}), S.subst(comp_b, {})
+        ok = comp_a == A and comp_b == B
+        r2.require(ok, dec, "decrypt round inverts encrypt round",
+                   "BitwiseFFX.decrypt: applying the decryption round to the output of the encryption round gives (%s, %s) instead of (a, b): decrypt(encrypt(x)) != x" % (
+                       S.show(comp_a)[:120], S.show(comp_b)[:120]), sd.loop)
+    # round order: encrypt runs i = 0 .. N-1, decrypt the same N downwards; N is the stored (even) round count
+    def count_up(it):
+        if it is not None and it[0] == "call" and it[1] == ("fn", "range"):
+            if len(it[2]) == 1:
+                return it[2][0]
+            if len(it[2]) == 2 and it[2][0] == ("const", 0):
+                return it[2][1]
+        return None
+
+    def count_down(it):
+        if it is None:
+            return None
+        if it[0] == "call" and it[1] == ("fn", "reversed") and len(it[2]) == 1:
+            return count_up(it[2][0])
+        if it[0] == "call" and it[1] == ("fn", "range") and len(it[2]) == 3 and it[2][1] == ("const", -1) and it[2][2] == ("const", -1):
+            hi = it[2][0]
+            if hi[0] == "op" and hi[1] == "Sub" and hi[3] == ("const", 1):
+                return hi[2]
+            if hi[0] == "cat" and len(hi[1]) == 2 and ("const", -1) in hi[1]:
+                return [x for x in hi[1] if x != ("const", -1)][0]
+        return None
+    ne, nd = count_up(se.iter), count_down(sd.iter)
+    r2.require(ne is not None and nd is not None and ne == nd, dec, "round order reversed",
+               "encrypt iterates %s and decrypt %s: decryption must run the same rounds in reverse order" % (S.show(se.iter) if se.iter else None, S.show(sd.iter) if sd.iter else None), sd.loop)
+    r3.require(ne == ("attr", ("var", "self"), "rounds"), enc, "round count is the stored (even) count",
+               "BitwiseFFX.encrypt runs %s rounds: only the stored round count is known to be even, and with an odd count the unequal halves of an odd-width input end up "
+               "swapped, so the inverse no longer matches" % (S.show(ne) if ne else None), se.loop)
+
+
 def check(repo):
     r1 = Rule("R15.1", "encryption round is (a, b) -> (b, a xor F(b)) with F independent of a")
     r2 = Rule("R15.2", "decryption round inverts the encryption round; round order is reversed")
@@ -72,79 +199,14 @@ def check(repo):
 
     enc = repo.func(FPE, "BitwiseFFX.encrypt")
     dec = repo.func(FPE, "BitwiseFFX.decrypt")
-    le, ld = _loop(enc), _loop(dec)
-    if not (r1.require(le is not None, enc, "single round loop", "BitwiseFFX.encrypt no longer consists of one round loop") and
-            r2.require(ld is not None, dec, "single round loop", "BitwiseFFX.decrypt no longer consists of one round loop")):
-        return rules
-    # halves come from split(v) and are rejoined as a + b
-    for fi in (enc, dec):
-        first = fi.node.body[0]
-        ok = isinstance(first, ast.Assign) and isinstance(first.targets[0], ast.Tuple) and [unparse(x) for x in first.targets[0].elts] == ["a", "b"] and \
-            isinstance(first.value, ast.Call) and dotted(first.value.func) == "self.split"
-        (r1 if fi is enc else r2).require(ok, fi, "halves from split", "%s no longer starts with a, b = self.split(v)" % fi.qual)
-        last = fi.node.body[-1]
-        ok = isinstance(last, ast.Return) and unparse(last.value) == "a + b"
-        (r1 if fi is enc else r2).require(ok, fi, "halves rejoined in order", "%s no longer returns a + b" % fi.qual)
-    try:
-        te = S.run(le.body)
-        td = S.run(ld.body)
-    except S.NotStraight as e:
-        r1.fail_fn(enc, le, "round body not straight-line", "round loop body contains control flow: %s" % e)
-        return rules
-    ivar = le.target.id if isinstance(le.target, ast.Name) else "i"
-    a2, b2 = te.get("a", ("var", "a")), te.get("b", ("var", "b"))
-    desc = {"T": {"a'": S.show(a2), "b'": S.show(b2)}}
-    # a' = b
-    ok_a = a2 == ("var", "b")
-    # b' = a ^ F where F does not mention a except inside len()
-    okb = False
-    F = None
-    if b2[0] == "xor" and len(b2[1]) == 2:
-        others = [x for x in b2[1] if x != ("var", "a")]
-        if len(others) == 1 and ("var", "a") in b2[1]:
-            F = others[0]
-            okb = F[0] == "call" and F[1] == ("fn", "self.round")
-    r1.require(ok_a and okb, enc, "round transformer shape",
-               "BitwiseFFX.encrypt: one round maps (a, b) to (%s, %s); a Feistel round must map it to (b, a ^ round(key, i, b, len(a)))" % (S.show(a2), S.show(b2)))
-    if F is not None and okb:
-        args = F[2]
-        uses_a_value = any(S.mentions(x, "a") and not (x[0] == "call" and x[1] == ("fn", "len")) for x in args)
-        r1.require(not uses_a_value, enc, "round function independent of the xor-ed half",
-                   "BitwiseFFX.encrypt: the round function reads the value of the half it is xor-ed into (%s): the round is no longer invertible" % S.show(F))
-        r1.require(len(args) >= 3 and args[0] == ("var", "key") and args[1] == ("var", ivar) and args[2] == ("var", "b"), enc, "round function inputs",
-                   "BitwiseFFX.encrypt: round is called as %s, expected round(key, i, b, len(a))" % S.show(F))
-        # width requested = len of the half being xor-ed
-        w = args[3] if len(args) > 3 else dict(F[3]).get("output_len")
-        r4.require(w == ("call", ("fn", "len"), (("var", "a"),), ()), enc, "requested width is the xor-ed half's length",
-                   "BitwiseFFX.encrypt asks the round function for %s bits, but xors the result into a (len(a) bits)" % (S.show(w) if w else None))
-        r1.instance(desc)
-    # ---------------------------------------------------------------- decrypt: compose U(T(a, b))
-    ua, ub = td.get("a", ("var", "a")), td.get("b", ("var", "b"))
-    r2.instance({"U": {"a'": S.show(ua), "b'": S.show(ub)}})
-    ivd = ld.target.id if isinstance(ld.target, ast.Name) else "i"
-    if okb and ok_a:
-        # lengths: len(x ^ F) == len(x) when F has the requested width (R15.4); len of substituted halves
-        def norm_len(t):
-            if isinstance(t, tuple):
-                if t and t[0] == "call" and t[1] == ("fn", "len") and t[2] and t[2][0][0] == "xor":
-                    inner = [x for x in t[2][0][1] if not (x[0] == "call" and x[1] == ("fn", "self.round"))]
-                    if len(inner) == 1:
-                        return ("call", ("fn", "len"), (norm_len(inner[0]),), ())
-                return tuple(norm_len(x) if isinstance(x, tuple) else x for x in t)
-            return t
-        comp_a = norm_len(S.subst(ua, {"a": a2, "b": b2, ivd: ("var", ivar)}))
-        comp_b = norm_len(S.subst(ub, {"a": a2, "b": b2, ivd: ("var", ivar)}))
-        # re-run xor cancellation after normalisation
-        comp_a = S.subst(comp_a, {})
-        comp_b = S.subst(comp_b, {})
-        ok = comp_a == ("var", "a") and comp_b == ("var", "b")
-        r2.require(ok, dec, "decrypt round inverts encrypt round",
-                   "BitwiseFFX.decrypt: applying the decryption round to the output of the encryption round gives (%s, %s) instead of (a, b): decrypt(encrypt(x)) != x" % (
-                       S.show(comp_a)[:120], S.show(comp_b)[:120]))
-    # round order
-    re_, rd = unparse(le.iter), unparse(ld.iter)
-    r2.require(re_ == "range(self.rounds)" and rd in ("range(self.rounds - 1, -1, -1)", "reversed(range(self.rounds))"), dec, "round order reversed",
-               "encrypt iterates %s and decrypt %s: decryption must run the rounds in reverse order" % (re_, rd))
+    sums = {}
+    for fi, rule in ((enc, r1), (dec, r2)):
+        try:
+            sums[fi.name] = shape.summary(fi.node)
+        except shape.NoShape as e:
+            rule.fail_fn(fi, fi.node, "single round loop", "%s is no longer <split>; <one round loop>; <join> (%s)" % (fi.qual, e))
+    if len(sums) == 2:
+        _check_ffx(repo, r1, r2, r3, r4, enc, dec, sums["encrypt"], sums["decrypt"])
     # ---------------------------------------------------------------- R15.3 parity
     m = repo.module(FPE)
     try:
@@ -155,7 +217,14 @@ def check(repo):
                "DEFAULT_ROUNDS is %r: with an odd number of rounds the unequal halves of an odd-width input end up swapped and the output width / inverse break" % (dr,))
     init = repo.func(FPE, "BitwiseFFX.__init__")
     dflt = init.node.args.defaults
-    r3.require(bool(dflt) and unparse(dflt[0]) == "DEFAULT_ROUNDS", init, "rounds default", "BitwiseFFX.__init__ no longer defaults rounds to DEFAULT_ROUNDS")
+    try:
+        dv = repo.const_value(m, dflt[0]) if dflt else None
+    except Exception:
+        dv = None
+    r3.require(isinstance(dv, int) and dv > 0 and dv % 2 == 0, init, "rounds default", "BitwiseFFX.__init__ defaults rounds to %r, not to an even constant" % (dv,))
+    stored = [ps.store("rounds") for ps in summarize(init) if ps.exc is None]
+    r3.require(bool(stored) and all(x == ("var", init.params[1]) for x in stored), init, "round count stored as given", "BitwiseFFX.__init__ stores %s as its round count" % (
+        [S.show(x) if x else None for x in stored]))
     for rel, mod in repo.modules.items():
         for fi in mod.all_functions():
             for c in ast.walk(fi.node):
@@ -173,20 +242,7 @@ def check(repo):
                "BitwiseFFX.split no longer uses half_bits_not_padding")
     # ---------------------------------------------------------------- R15.4 round returns exactly output_len bits
     rnd = repo.func(FPE, "BitwiseFFX.round")
-    rets = [x for x in ast.walk(rnd.node) if isinstance(x, ast.Return)]
-    ok = len(rets) == 1 and unparse(rets[0].value) == "result.get_higher_bits(output_len)"
-    r4.require(ok, rnd, "round truncates to the requested width", "BitwiseFFX.round no longer returns result.get_higher_bits(output_len)")
-    brk = [st for st in ast.walk(rnd.node) if isinstance(st, ast.If) and any(isinstance(x, ast.Break) for x in st.body)]
-    ok = len(brk) == 1 and unparse(brk[0].test) in ("len(result) >= output_len",)
-    r4.require(ok, rnd, "round accumulates until wide enough", "BitwiseFFX.round leaves its accumulation loop before len(result) >= output_len")
-    # deterministic: uses key, i, s; no randomness
-    src = unparse(rnd.node)
-    r4.require("hmac.new(key" in src and "os.urandom" not in src and "random." not in src and "time." not in src, rnd, "round is a function of (key, i, s)",
-               "BitwiseFFX.round is no longer a deterministic function of its inputs")
-    pre = [st for st in rnd.node.body if isinstance(st, ast.Assign) and unparse(st.targets[0]) == "pre"]
-    r4.require(bool(pre) and "i, *s" in unparse(pre[0].value), rnd, "round binds round index and half", "BitwiseFFX.round no longer feeds the round index and the half into the MAC input")
-    dflt_len = [st for st in rnd.node.body if isinstance(st, ast.If) and unparse(st.test) == "output_len == 0"]
-    r4.require(bool(dflt_len), rnd, "default width", "BitwiseFFX.round lost its default width (len(s))")
+    _check_round(repo, r4, rnd)
 
     # the permutation is a function of (key, input): no state kept on the cipher / PRP objects after construction
     check_prp_stateless(repo, r4)
@@ -207,49 +263,178 @@ def check(repo):
             else:
                 r5.ok({"function": qual, "subject": subj, "declared": decl})
     fp = repo.func("toolkit/prp/bitwise_fpe_prp.py", "BitwiseFPEPRP.__call__")
-    ret = [x for x in ast.walk(fp.node) if isinstance(x, ast.Return)]
-    r5.require(len(ret) == 1 and unparse(ret[0].value) == "self.underlying_fpe.encrypt(bytes(key), message)", fp, "PRP delegates to the cipher",
-               "BitwiseFPEPRP.__call__ no longer returns underlying_fpe.encrypt(bytes(key), message)")
+    want = ("call", ("fn", "self.underlying_fpe.encrypt"), (("call", ("fn", "bytes"), (("var", fp.params[1]),), ()), ("var", fp.params[2])), ())
+    rets = [ps.ret for ps in summarize(fp) if ps.exc is None]
+    r5.require(bool(rets) and all(x == want for x in rets), fp, "PRP delegates to the cipher",
+               "BitwiseFPEPRP.__call__ no longer returns underlying_fpe.encrypt(bytes(key), message) (returns %s)" % [S.show(x)[:80] if x else None for x in rets])
     lri = repo.func(LR, "LubyRackoffPRP.__init__")
-    r5.require(len([1 for st, exc in raising_ifs(lri) if exc == "ValueError"]) >= 3, lri, "constructor constraints", "LubyRackoffPRP.__init__ lost a constructor constraint")
+    Fl = facts_of(lri)
+    kl, ml, up = lri.params[2], lri.params[1], lri.params[3]
+    if "key_length" in lri.params and "message_length" in lri.params:
+        kl, ml = "key_length", "message_length"
+        up = [x for x in lri.params[1:] if x not in (kl, ml)][0]
+    need = {
+        "key length = 3 x PRF key length": lambda k, t: k[0] == "==" and t and entry(kl) in k[1:] and any(up in x and "key_length" in x and "3" in x for x in k[1:]),
+        "PRF input length = PRF output length": lambda k, t: k[0] == "==" and t and any("message_length" in x for x in k[1:]) and any("output_length" in x for x in k[1:]),
+        "message length = 2 x PRF input length": lambda k, t: k[0] == "==" and t and entry(ml) in k[1:] and any(up in x and "message_length" in x and "2" in x for x in k[1:]),
+    }
+    exit_alts = Fl.alts(Fl.cfg.exit) or []
+    for what, pred in need.items():
+        ok = bool(exit_alts) and all(any(pred(k, t) for (k, t) in alt) for alt in exit_alts)
+        r5.require(ok, lri, "constructor constraint: %s" % what, "LubyRackoffPRP.__init__ no longer refuses a PRF / length combination violating '%s'" % what)
     hl = repo.func("toolkit/prp/hmac_luby_rackoff_prp.py", "HmacLubyRackoffPRP.__init__")
-    r5.require(len([1 for st, exc in raising_ifs(hl) if exc == "ValueError"]) >= 2, hl, "divisibility checks", "HmacLubyRackoffPRP.__init__ lost a divisibility check")
-    srch = unparse(hl.node)
-    r5.require("output_length=message_length // 2" in srch and "message_length=message_length // 2" in srch and "key_length=key_length // 3" in srch, hl,
-               "underlying PRF geometry", "HmacLubyRackoffPRP builds its round PRF with the wrong key/message/output lengths")
+    Fh = facts_of(hl)
+    hk, hm = ("key_length", "message_length") if "key_length" in hl.params else (hl.params[2], hl.params[1])
+    ex = Fh.alts(Fh.cfg.exit) or []
+
+    def divisible(param, d):
+        def pred(k, t):
+            txt = "%s %% %d" % (entry(param), d)
+            return (k == ("truth", txt) and not t) or (k[0] == "==" and "0" in k[1:] and txt in k[1:] and t)
+        return pred
+    for param, d in ((hk, 3), (hm, 2)):
+        r5.require(bool(ex) and all(any(divisible(param, d)(k, t) for (k, t) in alt) for alt in ex), hl, "divisibility check %s %% %d" % (param, d),
+                   "HmacLubyRackoffPRP.__init__ no longer refuses a %s that is not a multiple of %d" % (param, d))
+    # geometry of the round PRF: key_length // 3, message_length // 2 in and out
+    geo = None
+    for c in ast.walk(hl.node):
+        if isinstance(c, ast.Call) and {k.arg for k in c.keywords} >= {"output_length", "message_length", "key_length"} and (dotted(c.func) or "").endswith("PRF"):
+            geo = {k.arg: S.canon(S.expr(inline_locals(hl.node, k.value), {})) for k in c.keywords}
+    half = ("op", "FloorDiv", ("var", hm), ("const", 2))
+    third = ("op", "FloorDiv", ("var", hk), ("const", 3))
+    r5.require(geo is not None and geo.get("output_length") == half and geo.get("message_length") == half and geo.get("key_length") == third, hl,
+               "underlying PRF geometry", "HmacLubyRackoffPRP builds its round PRF with the wrong key/message/output lengths (%s)" % (
+                   {k: S.show(v) for k, v in geo.items()} if geo else None))
     hc = repo.func("toolkit/prp/hmac_luby_rackoff_prp.py", "HmacLubyRackoffPRP.__call__")
-    r5.require("self.underlying_prp" in unparse(hc.node) and "(key, message)" in unparse(hc.node), hc, "wrapper delegates", "HmacLubyRackoffPRP.__call__ no longer delegates (key, message)")
+    rets = [ps.ret for ps in summarize(hc) if ps.exc is None]
+    wantc = ("call", ("fn", "self.underlying_prp"), (("var", hc.params[1]), ("var", hc.params[2])), ())
+    wantd = ("call", ("fn", "self.underlying_prp.__call__"), wantc[2], ())
+    r5.require(bool(rets) and all(x in (wantc, wantd) for x in rets), hc, "wrapper delegates", "HmacLubyRackoffPRP.__call__ no longer delegates (key, message)")
 
     # ---------------------------------------------------------------- R15.6 Luby-Rackoff rounds
     lrc = repo.func(LR, "LubyRackoffPRP.__call__")
-    loop = next((st for st in lrc.node.body if isinstance(st, ast.For)), None)
-    if r6.require(loop is not None, lrc, "round loop", "LubyRackoffPRP.__call__ lost its round loop"):
-        try:
-            t = S.run(loop.body)
-            L2, R2 = t.get("curr_left"), t.get("curr_right")
-            okL = L2 == ("var", "curr_right")
-            okR = False
-            F = None
-            if R2 is not None and R2[0] == "call" and R2[1] == ("fn", "bytes_xor") and len(R2[2]) == 2:
-                x, F = R2[2]
-                okR = x == ("var", "curr_left") and F[0] == "call" and F[1] == ("fn", "self.underlying_prf") and len(F[2]) == 2 and \
-                    F[2][1] == ("var", "curr_right") and not S.mentions(F, "curr_left")
-            r6.require(okL and okR, lrc, "Feistel round shape",
-                       "LubyRackoffPRP: one round maps (L, R) to (%s, %s); expected (R, L xor F_i(R))" % (S.show(L2) if L2 else None, S.show(R2)[:100] if R2 else None))
-            if F is not None and okR:
-                ivar2 = loop.target.id
-                r6.require(F[2][0] == ("sub", ("var", "key_list"), ("var", ivar2)), lrc, "round key is key_list[i]",
-                           "LubyRackoffPRP: round %s uses the key %s instead of key_list[i]" % (ivar2, S.show(F[2][0])))
-        except S.NotStraight as e:
-            r6.fail_fn(lrc, loop, "round body not straight-line", str(e))
-        r6.require(unparse(loop.iter) == "range(3)", lrc, "three rounds", "LubyRackoffPRP runs %s rounds; three are needed for a PRP" % unparse(loop.iter))
-    src = unparse(lrc.node)
-    r6.require("message[:self.message_length // 2], message[self.message_length // 2:]" in src, lrc, "halves", "LubyRackoffPRP no longer splits the message into two halves")
-    r6.require("[key[i:i + self.key_length // 3] for i in range(0, self.key_length, self.key_length // 3)]" in src, lrc, "three disjoint sub-keys",
-               "LubyRackoffPRP no longer cuts the key into three disjoint sub-keys")
-    rets = [x for x in ast.walk(lrc.node) if isinstance(x, ast.Return)]
-    r6.require(len(rets) == 1 and unparse(rets[0].value) == "curr_left + curr_right", lrc, "halves rejoined", "LubyRackoffPRP no longer returns curr_left + curr_right")
+    _check_luby_rackoff(repo, r6, lrc)
     return rules
+
+
+def _check_round(repo, r4, rnd):
+    """round(key, i, s, output_len): returns the higher `output_len` bits of an accumulation that stopped only when it was wide
+    enough; output_len defaults to len(s); the MAC is keyed with this call's key and its input binds the round index and the half."""
+    from ..terms import fn_terms, walk
+    kp, ip, sp, op_ = rnd.params[1:5]
+    F = facts_of(rnd)
+    cfg = F.cfg
+    rets = [n for n in cfg.nodes if n.kind == "return" and n.id in F.ins]
+    okr = bool(rets)
+    for n in rets:
+        v = inline_locals(rnd.node, n.stmt.value)
+        if not (isinstance(v, ast.Call) and isinstance(v.func, ast.Attribute) and v.func.attr == "get_higher_bits" and len(v.args) == 1 and
+                isinstance(v.args[0], ast.Name) and v.args[0].id == op_):
+            okr = False
+    r4.require(okr, rnd, "round truncates to the requested width", "BitwiseFFX.round no longer returns result.get_higher_bits(output_len)")
+    wide = True
+    for n in rets:
+        v = n.stmt.value
+        recv = v.func.value if isinstance(v, ast.Call) and isinstance(v.func, ast.Attribute) else None
+        rn = unparse(recv) if recv is not None else "?"
+        if not F.one_of(n.id, [(("<", "len(%s)" % rn, op_), False)]):
+            wide = False
+    r4.require(wide and bool(rets), rnd, "round accumulates until wide enough", "BitwiseFFX.round leaves its accumulation loop before len(result) >= output_len")
+    # default width: when output_len == 0 it becomes len(s)
+    dflt = False
+    for n in cfg.nodes:
+        if n.kind == "stmt" and isinstance(n.stmt, ast.Assign) and len(n.stmt.targets) == 1 and isinstance(n.stmt.targets[0], ast.Name) and n.stmt.targets[0].id == op_ and \
+                unparse(n.stmt.value) == "len(%s)" % sp and F.one_of(n.id, [(("==", "0", entry(op_)), True), (("truth", entry(op_)), False)]):
+            dflt = True
+    r4.require(dflt, rnd, "default width", "BitwiseFFX.round lost its default width (len(s))")
+    # the MAC
+    ft = fn_terms(repo, rnd)
+    macs = []
+    for n in ft.cfg.nodes:
+        if n.stmt is None or n.ast is None:
+            continue
+        root = n.ast if n.kind == "test" else n.stmt
+        for c in ast.walk(root):
+            if isinstance(c, ast.Call) and dotted(c.func) == "hmac.new" and len(c.args) >= 2:
+                macs.append((ft.term(c.args[0], n.id), ft.term(c.args[1], n.id), c))
+    okm = bool(macs)
+    for k, msg, c in macs:
+        leaves = [x for x in walk(msg) if isinstance(x, tuple)]
+        if k != ("param", kp) or ("param", ip) not in leaves or ("param", sp) not in leaves:
+            okm = False
+    r4.require(okm, rnd, "round binds key, round index and half", "BitwiseFFX.round no longer keys its MAC with this call's key or no longer feeds the round index and the half into the MAC input")
+    bad = [dotted(c.func) for c in ast.walk(rnd.node) if isinstance(c, ast.Call) and (dotted(c.func) or "").split(".")[0] in ("os", "random", "time", "secrets", "uuid")]
+    r4.require(not bad, rnd, "round is a function of (key, i, s)", "BitwiseFFX.round is no longer a deterministic function of its inputs (%s)" % bad)
+
+
+def _check_luby_rackoff(repo, r6, lrc):
+    from ..terms import fn_terms
+    kp, mp = lrc.params[1], lrc.params[2]
+    try:
+        sm = shape.summary(lrc.node)
+    except shape.NoShape as e:
+        r6.fail_fn(lrc, lrc.node, "round loop", "LubyRackoffPRP.__call__ is no longer <split>; <round loop>; <join> (%s)" % e)
+        return
+    msg = ("var", mp)
+    H = S.mv("H")
+    eqs = [(("slice", msg, None, H), lambda asg: sm.init.get(asg["L"])),
+           (("slice", msg, H, None), lambda asg: sm.init.get(asg["R"]))]
+    f = S.match_all(eqs, ["L", "R"], [v for v in sm.init if v in sm.carried])
+    half = ("op", "FloorDiv", ("attr", ("var", "self"), "message_length"), ("const", 2))
+    if not r6.require(f is not None and f[1].get("H") == half, lrc, "halves", "LubyRackoffPRP no longer splits the message into two halves at message_length // 2"):
+        return
+    asg, _b = f
+    Lv, Rv = ("var", asg["L"]), ("var", asg["R"])
+    r6.require(sm.ret == ("cat", (Lv, Rv)), lrc, "halves rejoined", "LubyRackoffPRP no longer returns left + right (returns %s)" % (S.show(sm.ret) if sm.ret else None))
+    L2, R2 = sm.step.get(asg["L"]), sm.step.get(asg["R"])
+    okL = L2 == Rv
+    okR, Fk = False, None
+    if R2 is not None and R2[0] == "call" and R2[1] == ("fn", "bytes_xor") and len(R2[2]) == 2 and Lv in R2[2]:
+        Fc = [x for x in R2[2] if x != Lv]
+        Fc = Fc[0] if Fc else None
+        if Fc is not None and Fc[0] == "call" and Fc[1] == ("fn", "self.underlying_prf") and len(Fc[2]) == 2 and Fc[2][1] == Rv and not S.mentions(Fc, asg["L"]):
+            okR, Fk = True, Fc[2][0]
+    r6.require(okL and okR, lrc, "Feistel round shape",
+               "LubyRackoffPRP: one round maps (L, R) to (%s, %s); expected (R, L xor F_i(R))" % (S.show(L2) if L2 else None, S.show(R2)[:100] if R2 else None), sm.loop)
+    tm = shape.times(sm, None)
+    r6.require(tm is not None and tm[0] == "count" and tm[1] == ("const", 3), lrc, "three rounds",
+               "LubyRackoffPRP runs %s rounds; three are needed for a PRP" % (S.show(tm[1]) if tm and tm[1] is not None else tm), sm.loop)
+    if okR:
+        ivar = sm.target
+        # round key i is the i-th of three disjoint thirds of the key
+        third = ("op", "FloorDiv", ("attr", ("var", "self"), "key_length"), ("const", 3))
+        K = ("attr", ("var", "self"), "key_length")
+        ok_key = False
+        shown = S.show(Fk)[:100]
+        if Fk[0] == "sub" and Fk[2] == ("var", ivar):
+            ft = fn_terms(repo, lrc)
+            for n in ft.cfg.nodes:
+                if n.stmt is None or n.ast is None:
+                    continue
+                for x in ast.walk(n.ast if n.kind == "test" else n.stmt):
+                    if isinstance(x, ast.Call) and dotted(x.func) == "self.underlying_prf" and x.args and isinstance(x.args[0], ast.Subscript):
+                        t = ft.term(x.args[0].value, n.id)
+                        while t[0] == "cont":
+                            t = t[2]
+                        if t[0] == "comp" and t[2][0] == "slice" and t[2][1] == ("param", kp):
+                            lo, hi = t[2][2], t[2][3]
+                            shown = "%s[..]" % __import__("sa.terms", fromlist=["show"]).show(t, maxdepth=4)[:90]
+                            rv = lo if lo is not None and lo[0] == "rangevar" else None
+                            if rv is not None and len(rv[1]) == 3 and rv[1][0] == ("const", 0) and _is_attr(rv[1][1], "key_length") and _is_third(rv[1][2]) and \
+                                    hi is not None and hi[0] == "binop" and hi[1] == "Add" and hi[2] == lo and _is_third(hi[3]):
+                                ok_key = True
+        elif Fk[0] == "slice" and Fk[1] == ("var", kp):
+            # key[i*k : (i+1)*k] written out
+            pass
+        r6.require(ok_key, lrc, "three disjoint sub-keys", "LubyRackoffPRP: round i no longer uses the i-th of three disjoint thirds of the key (uses %s)" % shown, sm.loop)
+
+
+def _is_attr(t, name):
+    return t == ("attr", ("param", "self"), name)
+
+
+def _is_third(t):
+    return t[0] == "binop" and t[1] == "FloorDiv" and _is_attr(t[2], "key_length") and t[3] == ("const", 3)
 
 
 # ----------------------------------------------------------------------------- self-test variants
